@@ -1,10 +1,13 @@
 package masks
 
 import (
+	"strings"
+
 	"github.com/mennanov/fmutils"
 	"google.golang.org/grpc/codes"
 	"google.golang.org/grpc/status"
 	"google.golang.org/protobuf/proto"
+	"google.golang.org/protobuf/reflect/protoreflect"
 	"google.golang.org/protobuf/types/known/fieldmaskpb"
 )
 
@@ -70,10 +73,43 @@ func (r *ResponseFilter) FilterClone(msg proto.Message) proto.Message {
 
 // filterPaths returns the paths to filter msg by: paths already covered by a parent path are dropped,
 // fmutils would otherwise treat {"a", "a.b"} as if it were {"a.b"}.
+//
+// Paths that do not exist in msg, or that continue through a scalar, map or repeated scalar field select nothing
+// and are dropped too, fmutils panics on some of them.
 func filterPaths(msg proto.Message, paths []string) []string {
-	m := &fieldmaskpb.FieldMask{Paths: append([]string(nil), paths...)}
+	m := &fieldmaskpb.FieldMask{}
+	for _, path := range paths {
+		if filterablePath(msg.ProtoReflect().Descriptor(), path) {
+			m.Paths = append(m.Paths, path)
+		}
+	}
 	m.Normalize()
 	return m.Paths
+}
+
+// filterablePath returns true if each segment of path names a field and all but the last name a message field.
+func filterablePath(md protoreflect.MessageDescriptor, path string) bool {
+	if path == "" {
+		return false
+	}
+	segments := strings.Split(path, ".")
+	for i, segment := range segments {
+		if md == nil {
+			return false // the previous segment was not a message
+		}
+		fd := md.Fields().ByName(protoreflect.Name(segment))
+		if fd == nil {
+			return false
+		}
+		if i == len(segments)-1 {
+			return true
+		}
+		if fd.IsMap() {
+			return false
+		}
+		md = fd.Message() // nil for scalar fields
+	}
+	return true
 }
 
 type ResponseFilterOption func(*ResponseFilter)
